@@ -131,6 +131,11 @@ package service
 //@ func NewShadowsocksStreamAuthenticator$1
 //@   props C01 C06 C07 C08 C18
 //@   requires clientConn != nil && ciphers != nil && metrics != nil && l != nil
+//@   trace[C06,authenticator-is-silent] never transport.StreamConn.Write
+//@   trace[C06,authenticator-does-not-close] never transport.StreamConn.Close*
+//@   trace[C06,authenticator-keeps-deadline] never transport.StreamConn.Set*Deadline
+//@   trace[C06,one-key-search] exactly 1 service.findAccessKey
+//@   trace[C06,replays-like-cipher-failure] each service.findAccessKey satisfies $res4 != nil ==> result.2 != nil && result.2.Status == "ERR_CIPHER" && result.1 == nil
 //@   trace[C07,checks-the-captured-cache] each service.(*ReplayCache).Add satisfies $arg0 == replayCache
 //@   trace[C07,replay-is-refused] each service.(*ReplayCache).Add satisfies $res0 == false ==> result.2 != nil && result.1 == nil
 //@   trace[C07,one-check-per-handshake] atmost 1 service.(*ReplayCache).Add
@@ -152,14 +157,34 @@ package service
 //@   props C18
 //@   requires clientConn != nil
 
+// absorbProbe reads until the client closes or the read deadline fires, then reports the probe.
 //@ func (*streamHandler).absorbProbe
 //@   props C06 C15 C18
 //@   requires validStreamHandler(h) && clientConn != nil && connMetrics != nil && proxyMetrics != nil
+//@   trace[C06,drains-once] exactly 1 io.Copy
+//@   trace[C06,drains-the-client] each io.Copy satisfies $arg1 == clientConn
+//@   trace[C15,probe-reported-once] exactly 1 service.TCPConnMetrics.AddProbe
+//@   trace[C15,probe-after-drain] before io.Copy service.TCPConnMetrics.AddProbe
+//@   trace[C15,probe-carries-status-and-bytes] each service.TCPConnMetrics.AddProbe satisfies $arg0 == status && $arg2 == proxyMetrics.ClientProxy
+//@   trace[C06,no-close-in-drain] never io.ReadCloser.Close
 
 //@ func (*streamHandler).handleConnection
 //@   props C01 C05 C06 C15 C18
 //@   requires validStreamHandler(h) && ctx != nil && outerConn != nil && connMetrics != nil && proxyMetrics != nil
 //@   trace[C05,no-direct-dial] never transport.StreamDialer.DialStream
+//@   trace[C06,deadline-before-first-read] before transport.StreamConn.SetReadDeadline service.streamHandler.authenticate
+//@   trace[C06,one-authentication] exactly 1 service.streamHandler.authenticate
+//@   trace[C06,probe-absorbed] exactly 1 service.(*streamHandler).absorbProbe when evres("service.streamHandler.authenticate", 2) != nil
+//@   trace[C15,no-probe-when-authenticated] never service.(*streamHandler).absorbProbe when evres("service.streamHandler.authenticate", 2) == nil
+//@   trace[C06,probe-status] each service.(*streamHandler).absorbProbe satisfies $arg3 == evres("service.streamHandler.authenticate", 2).Status && result == evres("service.streamHandler.authenticate", 2)
+//@   trace[C06,no-close-of-probe] never transport.StreamConn.Close* when evres("service.streamHandler.authenticate", 2) != nil
+//@   trace[C06,deadline-kept-for-probe] exactly 1 transport.StreamConn.SetReadDeadline when evres("service.streamHandler.authenticate", 2) != nil
+//@   trace[C15,authenticated-reported-once] exactly 1 service.TCPConnMetrics.AddAuthenticated when evres("service.streamHandler.authenticate", 2) == nil
+//@   trace[C15,unauthenticated-not-reported] never service.TCPConnMetrics.AddAuthenticated when evres("service.streamHandler.authenticate", 2) != nil
+//@   trace[C15,authenticated-id] each service.TCPConnMetrics.AddAuthenticated satisfies $arg0 == evres("service.streamHandler.authenticate", 0)
+//@   trace[C06,bad-address-drained] each service.getProxyRequest satisfies $res1 != nil ==> evcount("io.Copy") == 1 && result != nil && result.Status == "ERR_READ_ADDRESS"
+//@   trace[C15,relay-status-returned] each service.proxyConnection satisfies result == $res0
+//@   trace[C15,auth-failure-status] each service.streamHandler.authenticate satisfies $res2 != nil ==> result == $res2
 //@   trace[C01,no-target-without-authentication] never service.proxyConnection when evres("service.streamHandler.authenticate", 2) != nil
 //@   trace[C01,nothing-written-without-authentication] never transport.StreamConn.Write when evres("service.streamHandler.authenticate", 2) != nil
 
@@ -169,22 +194,60 @@ package service
 //@   props C05 C15 C18
 //@   requires h != nil && h.dialer != nil && proxyMetrics != nil
 //@   trace[C05,dials-through-handler-dialer] each transport.StreamDialer.DialStream satisfies $recv == h.dialer
+//@   trace[C15,target-counters-wired] each metrics.MeasureConn satisfies $arg1 == &proxyMetrics.ProxyTarget && $arg2 == &proxyMetrics.TargetProxy
 //@   trace[C05,one-dial] atmost 1 transport.StreamDialer.DialStream
 
 //@ func proxyConnection
 //@   props C02 C05 C15 C18
 //@   requires l != nil && ctx != nil && dialer != nil && clientConn != nil
 //@   trace[C05,dials-only-through-given-dialer] each transport.StreamDialer.DialStream satisfies $recv == dialer
+//@   trace[C02,client-fin-only-after-target-eof] before io.Copy transport.StreamConn.CloseWrite
+//@   trace[C02,no-copy-after-fin] notafter io.Copy transport.StreamConn.CloseWrite
+//@   trace[C02,this-direction-closes-client-write-only] each transport.StreamConn.CloseWrite satisfies $recv == clientConn
+//@   trace[C02,this-direction-closes-target-read-only] each transport.StreamConn.CloseRead satisfies $recv == evres("transport.StreamDialer.DialStream", 0)
+//@   trace[C02,waits-for-client-direction] exactly 1 recv when evres("transport.StreamDialer.DialStream", 1) == nil
+//@   trace[C15,dial-failure-status] each transport.StreamDialer.DialStream satisfies $res1 != nil ==> result != nil
+//@   trace[C02,target-closed-at-end] exactly 1 transport.StreamConn.Close when evres("transport.StreamDialer.DialStream", 1) == nil
+//@   trace[C02,one-relay-goroutine] exactly 1 go:service.proxyConnection$1 when evres("transport.StreamDialer.DialStream", 1) == nil
 //@   trace[C05,one-dial] exactly 1 transport.StreamDialer.DialStream
 
+// client-to-target direction of the relay
 //@ func proxyConnection$1
-//@   props C02 C18
+//@   props C02 C06 C18
 //@   goroutine
 //@   requires tgtConn != nil && clientConn != nil && fromClientErrCh != nil && !closed(fromClientErrCh)
+//@   trace[C02,target-fin-only-after-client-data] before io.Copy transport.StreamConn.CloseWrite
+//@   trace[C02,no-copy-after-fin] notafter io.Copy transport.StreamConn.CloseWrite
+//@   trace[C02,this-direction-closes-target-write-only] each transport.StreamConn.CloseWrite satisfies $recv == tgtConn
+//@   trace[C02,this-direction-closes-client-read-only] each transport.StreamConn.CloseRead satisfies $recv == clientConn
+//@   trace[C02,fin-sent-once] exactly 1 transport.StreamConn.CloseWrite
+//@   trace[C02,result-delivered-once] exactly 1 send
+//@   trace[C02,result-after-fin] before transport.StreamConn.CloseWrite send
+//@   trace[C06,relay-error-drained] atleast 1 io.Copy
 
+//@ func TCPConnMetrics.AddClosed
+//@   abstract
+//@   params m status data duration
+//@ func TCPConnMetrics.AddAuthenticated
+//@   abstract
+//@   params m accessKey
+//@ func TCPConnMetrics.AddProbe
+//@   abstract
+//@   params m status drainResult clientProxyBytes
+
+// Handle: one closed report with the real outcome, after everything else, before the close.
 //@ func (*streamHandler).Handle
 //@   props C06 C15 C18
 //@   requires validStreamHandler(h) && ctx != nil && clientConn != nil
+//@   trace[C15,closed-reported-once] exactly 1 service.TCPConnMetrics.AddClosed
+//@   trace[C15,closed-after-handling] before service.(*streamHandler).handleConnection service.TCPConnMetrics.AddClosed
+//@   trace[C15,connection-closed-after-report] before service.TCPConnMetrics.AddClosed transport.StreamConn.Close
+//@   trace[C15,connection-closed-once] exactly 1 transport.StreamConn.Close
+//@   trace[C15,status-is-outcome] each service.TCPConnMetrics.AddClosed satisfies (evres("service.(*streamHandler).handleConnection", 0) == nil ==> $arg0 == "OK") \
+//@        && (evres("service.(*streamHandler).handleConnection", 0) != nil ==> $arg0 == evres("service.(*streamHandler).handleConnection", 0).Status)
+//@   trace[C15,client-counters-wired] each metrics.MeasureConn satisfies $arg1 == &proxyMetrics.ProxyClient && $arg2 == &proxyMetrics.ClientProxy
+//@   trace[C15,handled-once] exactly 1 service.(*streamHandler).handleConnection
+//@   trace[C15,counters-handed-to-handler] each service.(*streamHandler).handleConnection satisfies $arg4 == &proxyMetrics
 
 //@ func StreamListener.Addr
 //@   abstract
